@@ -123,6 +123,9 @@ fn corpus() -> Vec<&'static str> {
         "prog 1 1 0 - infd v0 I 0 4 infd v0 V 3 0 2 4",
         "prog 2 2 0 - infd v0 V 3 0 2 4 infd v1 I 0 4 eq v1 v0",
         "prog 2 2 0 - infd v0 V 3 0 2 4 infd v1 I 0 4 eq v0 v1",
+        // one unification binding two domain variables (C09-k)
+        "prog 3 3 0 - infd v0 I 0 5 infd v1 V 3 1 2 3 infd v2 V 3 2 3 4 eq cons v1 cons v2 nil cons v0 cons v0 nil",
+        "prog 3 1 0 - infd v1 V 3 1 2 3 infd v2 V 3 1 2 3 eq cons v1 cons v2 nil cons i5 cons i2 nil eq v0 cons v1 cons v2 nil",
         // the seeds' own programs: distinct cascade (C16-k), hidden product (C17-k), aliased operands (C04-k)
         "prog 2 2 0 - infd v0 V 2 2 5 infd v1 I 0 5 ltefd v1 v0 distinctfd cons v0 cons v1 cons i5 nil",
         "prog 3 1 0 - infd v0 I 0 1 infd v1 I -3 2 infd v2 I -3 2 timesfd v1 v2 i4",
